@@ -38,7 +38,8 @@ int ar_req_new(KSI_CTX *ctx, void **req) { if (nondet_bool()) return KSI_OUT_OF_
 void ar_req_free(void *req) { }
 void *ar_req_ref(void *req) { return req; }
 int ar_enclose(void *req, KSI_Header *hdr, const char *key, void **pdu) { if (nondet_bool()) return KSI_INVALID_FORMAT; *pdu = &g_ar_pdu; return KSI_OK; }
-int ar_serialize(const void *pdu, unsigned char **raw, size_t *len) { unsigned char *p; if (nondet_bool()) return KSI_INVALID_FORMAT; p = malloc(4); if (p == NULL) return KSI_OUT_OF_MEMORY; *raw = p; *len = 4; return KSI_OK; }
+unsigned char *g_ar_raw_last;            /* ghost: the buffer produced by the last successful serialization */
+int ar_serialize(const void *pdu, unsigned char **raw, size_t *len) { unsigned char *p; if (nondet_bool()) return KSI_INVALID_FORMAT; p = malloc(4); if (p == NULL) return KSI_OUT_OF_MEMORY; *raw = p; *len = 4; g_ar_raw_last = p; return KSI_OK; }
 void ar_pdu_free(void *pdu) { }
 int ar_handle_new(KSI_CTX *ctx, void *req, KSI_AsyncHandle **h) { if (nondet_bool()) return KSI_OUT_OF_MEMORY; *h = &g_ar_confh; return KSI_OK; }
 int ar_impl_add(void *impl, KSI_AsyncHandle *h) { g_ar_transport_adds++; return nondet_bool() ? KSI_OK : KSI_ASYNC_NOT_FINISHED; }
